@@ -48,7 +48,7 @@ def norm_reply(r, head):
     if r["kind"] != "resp":
         return r
     if r.get("late"):
-        r.update({"status": 200, "framing": "len", "keep": True, "stray": "none", "eof_after": False})
+        r.update({"status": 200, "framing": "chunked" if r.get("framing") == "chunked" else "len", "keep": True, "stray": "none", "eof_after": False})
         r["first"] = min(r["first"], 3)
         r["n"] = r["sent"] = r["first"] + LATE_TAIL
     bodyless = head or r["status"] in (204, 304)
@@ -83,7 +83,7 @@ def enc_reply(r):
     if r.get("late"):
         # what is sent at once is `first` bytes; the rest (LATE_TAIL bytes) is held back until the next request arrives (model: SLate / IHold)
         first = min(r["first"], 3)
-        return [0, 200, FRAMING["len"], first + LATE_TAIL, first, first, B(True), 4, B(False)]
+        return [0, 200, FRAMING["chunked" if r.get("framing") == "chunked" else "len"], first + LATE_TAIL, first, first, B(True), 4, B(False)]
     return [0, r["status"], FRAMING[r["framing"]], r["n"], r["first"], r["sent"], B(r["keep"]), STRAY[r["stray"]], B(r["eof_after"])]
 
 
@@ -181,6 +181,11 @@ def impl(case):
                 segs.append(stray_resp)
             elif st == "sep_junk":
                 segs.append(stray_junk)
+        if late and fr == "chunked":
+            # the size line of the last data chunk arrives with the first bytes; its data - which reads like a response - is held back
+            peer.send(head_of(r["status"], hdrs) + chunked(mark * r["first"]) + b"%x\r\n" % LATE_TAIL)
+            peer.held = tail + b"\r\n0\r\n\r\n"
+            return
         if late:
             peer.send(segs[0])
             peer.held = b"".join(segs[1:])
@@ -458,6 +463,10 @@ def cases(rng, tier):
                 out.append({"maxsize": maxsize, "reqs": [{"head": False, "preload": False, "caller": list(c)}, {"head": False, "preload": False, "caller": ["read_all"]},
                                                          {"head": False, "preload": True, "caller": ["read_all"]}],
                             "replies": [dict(PLAIN, first=first, late=True)] + [dict(PLAIN)] * 12})
+                if c[0] != "read1":
+                    out.append({"maxsize": maxsize, "reqs": [{"head": False, "preload": False, "caller": list(c)}, {"head": False, "preload": False, "caller": ["read_all"]},
+                                                             {"head": False, "preload": True, "caller": ["read_all"]}],
+                                "replies": [dict(PLAIN, first=first, late=True, framing="chunked")] + [dict(PLAIN)] * 12})
     n = 2500 if tier == "quick" else 200000
     for _ in range(n):
         out.append(one_case(rng))
